@@ -6,6 +6,9 @@ import CG.Driver.HQuery
 import CG.Driver.HTopo
 import CG.Driver.HDsep
 import CG.Driver.HAlias
+import CG.Driver.HConv
+import CG.Driver.HEq
+import CG.Driver.HIdent
 
 /-- stateless handlers: first token of a line selects the handler -/
 def handlers : List (String × (List String → String)) := [
@@ -15,6 +18,11 @@ def handlers : List (String × (List String → String)) := [
   ("topo", CG.Driver.Topo.handle),
   ("dsep", CG.Driver.Dsep.handle),
   ("alias", CG.Driver.Alias.handle),
+  ("dict", CG.Driver.Conv.handleDict),
+  ("mx", CG.Driver.Conv.handleMx),
+  ("eq", CG.Driver.Eq.handle),
+  ("sk", CG.Driver.Eq.handleSk),
+  ("ident", CG.Driver.Ident.handle),
   ("gecho", fun args => match args with
     | [t] => (match CG.Driver.GraphCodec.decGraph? t with | some g => CG.Driver.GraphCodec.encGraph g | none => "bad-op")
     | _ => "bad-op")
